@@ -26,10 +26,10 @@ from vlib import *
 import tvgen
 import C37_ef
 
-PROPS = ['Props/Properties_C37.v', 'Props/Properties_C37_ef.v']
+PROPS = ['Props/Properties_C37.v', 'Props/Properties_C37_ef.v', 'Props/Properties_C37_ar.v']
 EXTRACT = '''From Coq Require Import Extraction ExtrOcamlBasic.
-Require Import Num Vec c37_gen C37_Model.
-Extraction "c37model.ml" hc_calcForce hc_force c_wrench ss_calcForce ss_contact_force es_normal es_friction es_force_P hz_force bk_vertex bk_loop stribeck hollars_mu v3_setz0.
+Require Import Num Vec c37_gen C37_Model C37_ar_Model.
+Extraction "c37model.ml" cc_bodyForces net_wrench hc_calcForce hc_force c_wrench ss_calcForce ss_contact_force es_normal es_friction es_force_P hz_force bk_vertex bk_loop stribeck hollars_mu v3_setz0.
 '''
 
 # ------------------------------------------------------------------ small vector helpers (generator side only)
@@ -210,6 +210,60 @@ def hc_classify(info, out):
         vn = dot(sub(vel(bodies[surf_body[s1]]), vel(bodies[surf_body[s2]])), n)
         res.append('active' if 1 + 1.5 * c * vn > 0 else 'clipped')
     return res
+
+
+# ------------------------------------------------------------------ action and reaction (net wrench incl. Ground)
+def net_wrench(ps, F):
+    """ps: body origins; F: 6 numbers per body (moment about the body origin, force).  -> (|net force|, |net moment about O|, scale)"""
+    nf = [0.0] * 3; nm = [0.0] * 3; scale = 0.0
+    for i, pb in enumerate(ps):
+        m, f = F[6 * i: 6 * i + 3], F[6 * i + 3: 6 * i + 6]; mo = add(m, cross(pb, f))
+        nf = add(nf, f); nm = add(nm, mo); scale = max(scale, norm(f), norm(mo), norm(m))
+    return norm(nf), norm(nm), scale
+def ar_predicate(ctx, elem, line, ps, F, state):
+    """implementation-only: the element's body forces (Ground included) must have zero net force and zero net moment"""
+    fn, mn, scale = net_wrench(ps, F); state['evaluated'] = state.get('evaluated', 0) + 1
+    if scale > 0: state['nonzero'] = state.get('nonzero', 0) + 1
+    if (fn > 1e-9 * scale + 1e-11 or mn > 1e-9 * scale + 1e-11) and (state.get('worst') is None or max(fn, mn) > state['worst'][0]):
+        state['worst'] = (max(fn, mn), line, 'net force %.6g, net moment about the Ground origin %.6g (largest body force/moment %.6g)' % (fn, mn, scale))
+def ar_finish(ctx, elem, state):
+    ctx.extra.setdefault('action_reaction', {})[elem] = {'evaluated': state.get('evaluated', 0), 'with_non_zero_forces': state.get('nonzero', 0),
+        'with_patch_moment': state.get('moment', 0), 'surface1_on_moving_body': state.get('s1moving', 0), 'violations': 0 if state.get('worst') is None else 1}
+    if state.get('worst'):
+        w = state['worst']
+        ctx.broken.append(('predicate:%s:net-wrench-not-zero' % elem, w[2]))
+        ctx.report('impl:%s:net-wrench-not-zero' % elem, '%s applies a non-zero net wrench to the system (Ground included): %s' % (elem, w[2]),
+                   {'probe_input': w[1], 'failing_input': w[1]})
+def cc_action_reaction(ctx, elem, exe, drv, lines, parsed):
+    """CompliantContactSubsystem scenes (HZ / BK / ME probe output): (a) implementation-only net-wrench predicate on the rigid body forces,
+    (b) correspondence of the application step: rigid body forces = extracted cc_bodyForces of the reported ContactForces"""
+    st = {}; ml = []; metas = []
+    for line, p in zip(lines, parsed):
+        b = p[0][2:]; nb = int(b[0]); ps = [b[1 + 9 * i: 4 + 9 * i] for i in range(nb)]; F = p[4]
+        sf = p[1]; nsurf = int(sf[0]); sbody = [int(sf[1 + 7 * i]) for i in range(nsurf)]
+        cs = p[2]; nc = int(cs[0]); W = 47; cmap = {}
+        for i in range(nc):
+            rec = cs[1 + W * i: 1 + W * (i + 1)]; cmap[int(rec[0])] = (int(rec[1]), int(rec[2]))
+        f = p[3]; nf = int(f[0]); j = 1; cfs = []
+        for _ in range(nf):
+            cid = int(f[j]); rec = f[j + 1: j + 12]; nd = int(f[j + 12]); j += 13 + 16 * nd
+            s1, s2 = cmap[cid]; cfs.append([sbody[s1], sbody[s2]] + rec[0:9])
+            if norm(rec[3:6]) > 1e-9 * max(1.0, norm(rec[6:9])): st['moment'] = st.get('moment', 0) + 1
+            if sbody[s1] != 0: st['s1moving'] = st.get('s1moving', 0) + 1
+        ar_predicate(ctx, elem, line, ps, F, st)
+        ml.append(fmt(['AR', nb] + sum(ps, []) + [len(cfs)] + sum(cfs, []))); metas.append((line, F))
+    ar_finish(ctx, elem, st)
+    if drv:
+        mouts, err = run_lines(drv, ml)
+        if len(mouts) != len(ml): ctx.broken.append(('ocaml:C37_drv:AR', 'driver produced %d lines for %d scenes' % (len(mouts), len(ml)))); return
+        dis = 0; first = None
+        for (line, F), mo in zip(metas, mouts):
+            m = parse_floats(mo)[:len(F)]
+            if not agree(F, m):
+                dis += 1
+                if first is None: first = (line, F, m)
+        ctx.extra['action_reaction'][elem]['application_step_disagreements'] = dis
+        if first: ctx.broken.append(('correspondence:%s:body-force-application' % elem, 'rigid body forces differ from the model applying the reported ContactForces: impl=%s model=%s input=%s' % (first[1], first[2], first[0][:200])))
 
 # ------------------------------------------------------------------ the run
 def build(ctx):
@@ -447,6 +501,7 @@ def corr_hz(ctx, exe, drv, n):
     if len(outs) != len(lines) or any(not o.startswith('OK') for o in outs):
         ctx.broken.append(('harness:C37_probe:HZ', 'probe failed: %s %s' % ([o for o in outs if not o.startswith('OK')][:1], err[-300:]))); return
     parsed = [secs(o) for o in outs]
+    cc_action_reaction(ctx, 'CompliantContactSubsystem:HertzCircular', exe, drv, lines, parsed)
     ml = []; meta = []
     for ci, p in enumerate(parsed):
         sig = p[0][1]; sf = p[1]; nsurf = int(sf[0]); mats = [sf[1 + 7 * i: 8 + 7 * i] for i in range(nsurf)]
@@ -564,6 +619,7 @@ def corr_bk(ctx, exe, drv, n):
     if len(outs) != len(lines) or any(not o.startswith('OK') for o in outs):
         ctx.broken.append(('harness:C37_probe:BK', 'probe failed: %s %s' % ([o for o in outs if not o.startswith('OK')][:1], err[-300:]))); return
     parsed = [secs(o) for o in outs]; ml = []; meta = []
+    cc_action_reaction(ctx, 'CompliantContactSubsystem:BrickHalfSpace', exe, drv, lines, parsed)
     for ci, p in enumerate(parsed):
         sig = p[0][1]; sf = p[1]; nsurf = int(sf[0]); mats = [sf[1 + 7 * i: 8 + 7 * i] for i in range(nsurf)]
         cs = p[2]; nc = int(cs[0]); W = 5 + 12 + 12 + 6 + 12
